@@ -63,7 +63,7 @@ def generate(rng: random.Random, tier: str) -> dict:
         elif r < 0.70:
             ops.append({"op": "count"})
         elif r < 0.80:
-            ops.append({"op": "initialize", "info": rng.choice([None, {"name": "cli", "version": "9"}]),
+            ops.append({"op": "initialize", "info": rng.choice([None, {"name": "cli", "version": "9"}, "NULL", "STR", "LIST"]),
                         "version": rng.choice(VERSIONS + [None, "1999-01-01", "2026-01-01", "not-a-version", "", 20250618]),
                         "sid": rng.choice([None, None, 0])})
         elif r < 0.88:
@@ -176,145 +176,153 @@ def execute(scn: dict) -> dict:
 
         async with anyio.create_task_group() as tg:
             for k, op in enumerate(scn["ops"]):
-                o = op["op"]
-                st["log"].append((k, o, clock.now))
-                if inflight[0]:
-                    probe("slow_handler_overlapped")
-                if o == "create":
-                    sid = mgr.create_session(copy.deepcopy(op["info"]), op["version"], copy.deepcopy(op["meta"]))
-                    if sid in ids:
-                        V("ids", "duplicate-id", f"create_session returned an id already issued: {sid}")
-                    if not isinstance(sid, str) or not sid:
-                        V("ids", "bad-id", f"create_session returned {sid!r}")
-                    ids.append(sid)
-                    model[sid] = {"info": op["info"], "version": op["version"], "created": clock.now, "last": clock.now, "meta": op["meta"] or {}}
-                elif o == "get":
-                    sid = pick(op["which"])
-                    s = mgr.get_session(sid)
-                    if (s is None) != (sid not in model):
-                        V("get", "presence", f"get_session({sid[:12]}) -> {s!r:.100}, model has it: {sid in model}")
-                elif o == "update":
-                    sid = pick(op["which"])
-                    r = mgr.update_activity(sid)
-                    if r is not (sid in model):
-                        V("update", "return", f"update_activity({sid[:12]}) -> {r!r}, model has it: {sid in model}")
-                    if sid in model:
-                        model[sid]["last"] = clock.now
-                elif o == "delete":
-                    sid = pick(op["which"])
-                    r = mgr.delete_session(sid)
-                    if r is not (sid in model):
-                        V("delete", "return", f"delete_session({sid[:12]}) -> {r!r}, model has it: {sid in model}")
-                    model.pop(sid, None)
-                elif o == "cleanup":
-                    ma = op["max_age"]
-                    limit = 3600 if ma is None else ma
-                    idle = {sid: clock.now - rec["last"] for sid, rec in model.items()}
-                    exp_gone = [sid for sid, d in idle.items() if d > limit]
-                    for d in idle.values():
-                        if d == limit:
-                            probe("idle_exactly_max_age")
-                        elif 0 < d - limit <= 1:
-                            probe("idle_just_over_max_age")
-                        elif 0 < limit - d <= 1:
-                            probe("idle_just_under_max_age")
-                    r = mgr.cleanup_expired() if ma is None else mgr.cleanup_expired(ma)
-                    if exp_gone and len(exp_gone) < len(model):
-                        probe("cleanup_removed_some_kept_some")
-                    if r != len(exp_gone):
-                        V("cleanup", "count", f"cleanup_expired({ma}) -> {r}, model expires {len(exp_gone)} (idle times {sorted(idle.values())[:6]}, limit {limit})")
-                    for sid in exp_gone:
-                        del model[sid]
-                elif o == "list_mutate":
-                    listing = mgr.list_sessions()
-                    probe("listing_mutated")
-                    if op["how"] == "add":
-                        listing["intruder"] = None
-                    elif op["how"] == "remove" and listing:
-                        listing.pop(sorted(listing)[0])
-                    elif op["how"] == "clear":
-                        listing.clear()
-                    elif op["how"] == "replace" and listing:
-                        listing[sorted(listing)[0]] = None
-                elif o == "reseed_random":
-                    import random as _global_random
-                    _global_random.seed(op["seed"])
-                    probe("process_wide_random_reseeded")
-                elif o == "clear":
-                    r = mgr.clear_all_sessions()
-                    if r != len(model):
-                        V("clear", "count", f"clear_all_sessions -> {r}, model had {len(model)}")
-                    model.clear()
-                elif o == "count":
-                    if mgr.get_session_count() != len(model):
-                        V("state", "count-differs", f"count {mgr.get_session_count()} != {len(model)}")
-                elif o == "initialize":
-                    params = {"capabilities": {}}
-                    if op["info"] is not None:
-                        params["clientInfo"] = copy.deepcopy(op["info"])
-                    if op["version"] is not None:
-                        params["protocolVersion"] = op["version"]
-                    before = set(mgr.list_sessions())
-                    existing = pick(op["sid"]) if op["sid"] is not None else None
-                    if existing in model:
-                        model[existing]["last"] = clock.now  # dispatch with a known session id counts as activity
-                    if op["version"] is not None and op["version"] not in VERSIONS:
-                        probe("initialize_with_unsupported_version")
-                    resp, new_sid = await handler.handle_message(JSONRPCRequest(id=f"i{k}", method="initialize", params=params), existing)
-                    after = set(mgr.list_sessions())
-                    added = after - before
-                    ok_resp = resp is not None and getattr(resp, "result", None) is not None
-                    if not ok_resp:
-                        V("initialize", "no-result", f"initialize answered {resp!r:.150}")
-                    elif len(added) != 1 or new_sid not in added:
-                        V("initialize", "sessions-added", f"a successful initialize added {len(added)} sessions (returned id {new_sid!r})")
-                    else:
-                        if new_sid in ids:
-                            V("ids", "duplicate-id", f"initialize returned an id already issued: {new_sid}")
-                        ids.append(new_sid)
-                        model[new_sid] = {"info": op["info"] if op["info"] is not None else {}, "version": resp.result.get("protocolVersion"),
-                                          "created": clock.now, "last": clock.now, "meta": {}}
-                elif o == "request":
-                    sid = pick(op["which"])
-                    if sid not in model:
-                        probe("request_with_unknown_session")
-                    else:
-                        model[sid]["last"] = clock.now
-                    cls = JSONRPCNotification if op["notification"] else JSONRPCRequest
-                    kw = {} if op["notification"] else {"id": k}
-                    msg = cls(method=op["method"], params={"sleep": op["sleep"]}, **kw)
-                    n_before = len(mgr.list_sessions())
-
-                    async def run(msg=msg, sid=sid):
-                        try:
-                            await handler.handle_message(msg, sid)
-                        except Exception:
-                            pass  # dispatch robustness is C08's business
-
-                    if op["method"] == "slow":
-                        tg.start_soon(run, name=f"slow-{k}")
-                        await anyio.sleep(0)
-                    else:
-                        await run()
-                    if len(mgr.list_sessions()) != n_before:
-                        V("request", "session-count-changed", "dispatching a request changed the number of sessions")
-                elif o == "clock":
-                    how = op["how"]
-                    if how == "to_boundary" and ids:
+                try:
+                    o = op["op"]
+                    st["log"].append((k, o, clock.now))
+                    if inflight[0]:
+                        probe("slow_handler_overlapped")
+                    if o == "create":
+                        sid = mgr.create_session(copy.deepcopy(op["info"]), op["version"], copy.deepcopy(op["meta"]))
+                        if sid in ids:
+                            V("ids", "duplicate-id", f"create_session returned an id already issued: {sid}")
+                        if not isinstance(sid, str) or not sid:
+                            V("ids", "bad-id", f"create_session returned {sid!r}")
+                        ids.append(sid)
+                        model[sid] = {"info": op["info"], "version": op["version"], "created": clock.now, "last": clock.now, "meta": op["meta"] or {}}
+                    elif o == "get":
                         sid = pick(op["which"])
+                        s = mgr.get_session(sid)
+                        if (s is None) != (sid not in model):
+                            V("get", "presence", f"get_session({sid[:12]}) -> {s!r:.100}, model has it: {sid in model}")
+                    elif o == "update":
+                        sid = pick(op["which"])
+                        r = mgr.update_activity(sid)
+                        if r is not (sid in model):
+                            V("update", "return", f"update_activity({sid[:12]}) -> {r!r}, model has it: {sid in model}")
                         if sid in model:
-                            clock.now = model[sid]["last"] + op["max_age"] + op["eps"]
-                            if op["max_age"] + op["eps"] < 0:
-                                probe("clock_went_backwards")
-                    elif how == "advance":
-                        clock.now += op["dt"]
-                        await anyio.sleep(min(op["dt"], 3.0))
-                    elif how == "back":
-                        clock.now -= op["dt"]
-                        probe("clock_went_backwards")
-                    elif how == "jump":
-                        clock.now += 86400 * 365
-                check_state(f"op#{k} {o}")
+                            model[sid]["last"] = clock.now
+                    elif o == "delete":
+                        sid = pick(op["which"])
+                        r = mgr.delete_session(sid)
+                        if r is not (sid in model):
+                            V("delete", "return", f"delete_session({sid[:12]}) -> {r!r}, model has it: {sid in model}")
+                        model.pop(sid, None)
+                    elif o == "cleanup":
+                        ma = op["max_age"]
+                        limit = 3600 if ma is None else ma
+                        idle = {sid: clock.now - rec["last"] for sid, rec in model.items()}
+                        exp_gone = [sid for sid, d in idle.items() if d > limit]
+                        for d in idle.values():
+                            if d == limit:
+                                probe("idle_exactly_max_age")
+                            elif 0 < d - limit <= 1:
+                                probe("idle_just_over_max_age")
+                            elif 0 < limit - d <= 1:
+                                probe("idle_just_under_max_age")
+                        r = mgr.cleanup_expired() if ma is None else mgr.cleanup_expired(ma)
+                        if exp_gone and len(exp_gone) < len(model):
+                            probe("cleanup_removed_some_kept_some")
+                        if r != len(exp_gone):
+                            V("cleanup", "count", f"cleanup_expired({ma}) -> {r}, model expires {len(exp_gone)} (idle times {sorted(idle.values())[:6]}, limit {limit})")
+                        for sid in exp_gone:
+                            del model[sid]
+                    elif o == "list_mutate":
+                        listing = mgr.list_sessions()
+                        probe("listing_mutated")
+                        if op["how"] == "add":
+                            listing["intruder"] = None
+                        elif op["how"] == "remove" and listing:
+                            listing.pop(sorted(listing)[0])
+                        elif op["how"] == "clear":
+                            listing.clear()
+                        elif op["how"] == "replace" and listing:
+                            listing[sorted(listing)[0]] = None
+                    elif o == "reseed_random":
+                        import random as _global_random
+                        _global_random.seed(op["seed"])
+                        probe("process_wide_random_reseeded")
+                    elif o == "clear":
+                        r = mgr.clear_all_sessions()
+                        if r != len(model):
+                            V("clear", "count", f"clear_all_sessions -> {r}, model had {len(model)}")
+                        model.clear()
+                    elif o == "count":
+                        if mgr.get_session_count() != len(model):
+                            V("state", "count-differs", f"count {mgr.get_session_count()} != {len(model)}")
+                    elif o == "initialize":
+                        params = {"capabilities": {}}
+                        info_val = op["info"]
+                        if isinstance(info_val, str):
+                            # "NULL"/"STR"/"LIST": a clientInfo that is no JSON object (the handshake goes through all the same)
+                            info_val = {"NULL": None, "STR": "just-a-string", "LIST": ["n", 1]}[info_val]
+                        if op["info"] is not None:
+                            params["clientInfo"] = copy.deepcopy(info_val)
+                        if op["version"] is not None:
+                            params["protocolVersion"] = op["version"]
+                        before = set(mgr.list_sessions())
+                        existing = pick(op["sid"]) if op["sid"] is not None else None
+                        if existing in model:
+                            model[existing]["last"] = clock.now  # dispatch with a known session id counts as activity
+                        if op["version"] is not None and op["version"] not in VERSIONS:
+                            probe("initialize_with_unsupported_version")
+                        resp, new_sid = await handler.handle_message(JSONRPCRequest(id=f"i{k}", method="initialize", params=params), existing)
+                        after = set(mgr.list_sessions())
+                        added = after - before
+                        ok_resp = resp is not None and getattr(resp, "result", None) is not None
+                        if not ok_resp:
+                            V("initialize", "no-result", f"initialize answered {resp!r:.150}")
+                        elif len(added) != 1 or new_sid not in added:
+                            V("initialize", "sessions-added", f"a successful initialize added {len(added)} sessions (returned id {new_sid!r})")
+                        else:
+                            if new_sid in ids:
+                                V("ids", "duplicate-id", f"initialize returned an id already issued: {new_sid}")
+                            ids.append(new_sid)
+                            model[new_sid] = {"info": info_val if op["info"] is not None else {}, "version": resp.result.get("protocolVersion"),
+                                              "created": clock.now, "last": clock.now, "meta": {}}
+                    elif o == "request":
+                        sid = pick(op["which"])
+                        if sid not in model:
+                            probe("request_with_unknown_session")
+                        else:
+                            model[sid]["last"] = clock.now
+                        cls = JSONRPCNotification if op["notification"] else JSONRPCRequest
+                        kw = {} if op["notification"] else {"id": k}
+                        msg = cls(method=op["method"], params={"sleep": op["sleep"]}, **kw)
+                        n_before = len(mgr.list_sessions())
+
+                        async def run(msg=msg, sid=sid):
+                            try:
+                                await handler.handle_message(msg, sid)
+                            except Exception:
+                                pass  # dispatch robustness is C08's business
+
+                        if op["method"] == "slow":
+                            tg.start_soon(run, name=f"slow-{k}")
+                            await anyio.sleep(0)
+                        else:
+                            await run()
+                        if len(mgr.list_sessions()) != n_before:
+                            V("request", "session-count-changed", "dispatching a request changed the number of sessions")
+                    elif o == "clock":
+                        how = op["how"]
+                        if how == "to_boundary" and ids:
+                            sid = pick(op["which"])
+                            if sid in model:
+                                clock.now = model[sid]["last"] + op["max_age"] + op["eps"]
+                                if op["max_age"] + op["eps"] < 0:
+                                    probe("clock_went_backwards")
+                        elif how == "advance":
+                            clock.now += op["dt"]
+                            await anyio.sleep(min(op["dt"], 3.0))
+                        elif how == "back":
+                            clock.now -= op["dt"]
+                            probe("clock_went_backwards")
+                        elif how == "jump":
+                            clock.now += 86400 * 365
+                    check_state(f"op#{k} {o}")
+                except Exception as e_op:  # noqa
+                    # a session-store operation (or the dispatch around it) raised: the store no longer behaves like a map
+                    V("operation-raised", f"{op['op']}:{type(e_op).__name__}", f"op#{k} {op['op']} raised {type(e_op).__name__}: {str(e_op)[:120]}")
         st["final"] = len(model)
 
     import random as _global_random
